@@ -40,6 +40,20 @@ ASSUMPTIONS = [
     'bare multisig: update_scripts has no branch for it; reachable only with strict=False and the locking script passed '
     'by the caller (Script(script_types=["multisig"]).serialize()) — the digest is then the consensus one, but the '
     'library never builds the scriptSig (C02/C10 territory); excluded from the parse and signed streams',
+    'life cycle of one Transaction object (Model/Sighash.v: tobj, mut, lib_apply, ob_run): the object state is what raw() '
+    'serialises plus the second copy of the version (version_int); lib_apply mirrors add_input (BIP68 switch to version 2, '
+    'replace_by_fee), add_output, set_locktime_relative_blocks/_time, set_locktime_blocks/_time, sign_and_update (copies '
+    'version_int into version), shuffle_inputs and merge_transaction (outcome of random.shuffle supplied by the harness), and '
+    'plain assignments to sequence / outpoint / value / locktime / version / outputs; signing, verifying, serialising and '
+    'asking for digests are the identity on that state.  lib_digest_depends_only_on_fields / session_no_hidden_state name '
+    'the obligation NO HIDDEN STATE: it is discharged by correspondence — after every step of a session the '
+    'implementation\'s Transaction.signature of every input and hash type is compared with the model on the current '
+    'state, and the fields parsed (own parser) from Transaction.raw() at that moment with the model\'s fields — not by '
+    'a proof about Python objects.  Exceptions are not predicted: comparison of a session stops at the first refused step',
+    'session oracle (prop_check): version, locktime, outpoints, sequences and outputs are taken from the bytes raw() '
+    'returns at that moment, only the spent outputs (kind, keys, m, amount) follow the request; signatures embedded in '
+    'raw() must be valid for the consensus digest for every input the library (re-)signed after the last change, and '
+    'verify() must agree with the independent verifier',
     'not modelled: coinbase inputs, OP_CODESEPARATOR/FindAndDelete, taproot; key objects (a key is its serialized bytes); '
     'ECDSA itself (C13) — the signatures embedded in Transaction.raw() are checked by the harness verifier '
     '(own parser + fastecdsa called directly + pure-Python secp256k1), not in Coq',
@@ -48,7 +62,13 @@ RULE = ('corpus (BIP143 published examples) + structured stream: transactions wi
         'index, hash types 1,2,3,0x81,0x82,0x83 (+ odd ones) on the segwit path, boundary values/sequences/versions, '
         'output counts across the CompactSize boundary, m-of-n up to 15 keys, several networks; built through the API and '
         're-parsed from signed bytes; permuted index_n stream; signed transactions checked by an independent verifier. '
-        'non-trivial = the implementation returned a preimage / a signed transaction; distinct by request')
+        'sessions on ONE object: built through Transaction()+add_input/add_output (int and bytes spellings, default and '
+        'explicit version, replace_by_fee), Transaction(inputs, outputs) and Transaction.parse, with every class of nSequence; '
+        'then sign / verify / digests interleaved with in-place changes (sequence, outpoint, amount, locktime, version, '
+        'version_int, output value/script, add_input, add_output, shuffle_inputs, merge_transaction), set_locktime_* on and '
+        'around their boundaries, sign_and_update / sign(replace_signatures); observation policies every-step / end-only / '
+        'after-signing / first-and-last. '
+        'non-trivial = the implementation returned a preimage / a signed transaction / a session; distinct by request')
 IMPL_TIMEOUT = 3000
 
 # ============================================================================ secp256k1 (own, pure Python)
@@ -510,6 +530,205 @@ def gen_tx(rng, kinds, n_out=None, sw=True, net=None):
                 net=net or rng.choice(NETWORKS), ins=ins, outs=outs)
 
 
+# ---------------------------------------------------------------- sessions: one object, many steps
+SESS_KINDS = [k for k in KINDS if k != 'multisig']
+REL_BLOCKS = [1, 2, 100, 144, 0xfffe, 0xffff]
+REL_TIMES = [1, 511, 512, 513, 1024, 3600, 512 * 0xffff, 512 * 0xffff + 511]
+# one representative of every class of nSequence: final, locktime-enabling, RBF, zero, BIP68 blocks, BIP68 time,
+# BIP68 with bits outside the mask, disable flag set
+SEQ_CLASSES = {
+    'final': [0xffffffff], 'enable': [0xfffffffe], 'rbf': [0xfffffffd, 0xfffffff0],
+    'zero': [0], 'rel_blocks': [1, 0x90, 0xffff], 'rel_time': [0x400001, 0x40000a, 0x40ffff],
+    'rel_other': [0x10000, 0x7fffffff, 0x3fffff, 0x410000], 'disabled': [0x80000000, 0x80000001, 0xc0400001]}
+
+
+def gen_seq(rng, cls=None):
+    cls = cls or rng.choice(list(SEQ_CLASSES))
+    return rng.choice(SEQ_CLASSES[cls])
+
+
+def sess_tx(rng, n_in=None, sw=True, ver=None, seq_cls=None, small_ms=True):
+    """a transaction description for a session: every input signable by the library, amounts positive"""
+    n = n_in or rng.choice([1, 1, 2, 2, 3])
+    kinds = [rng.choice(SESS_KINDS if sw else KINDS[1:2] + KINDS[:1] + KINDS[3:4]) for _ in range(n)]
+    tx = gen_tx(rng, kinds, n_out=rng.choice([1, 2, 3]), sw=sw)
+    for x in tx['ins']:
+        if small_ms and len(x['keys']) > 3:
+            x['keys'] = x['keys'][:3]
+            x['m'] = min(x['m'], 3)
+        x['seq'] = gen_seq(rng, seq_cls) if (seq_cls or rng.random() < 0.7) else 0xffffffff
+        x['value'] = rng.choice([546, 100000000, 0x100000001, 2100000000000000]) if rng.random() < 0.5 else rng.randrange(1, 1 << 50)
+    tx['ver'] = rng.choice([0, 0, 0, 1, 1, 2, 2, 3, 0x7fffffff, 0xffffffff]) if ver is None else ver
+    tx['lock'] = rng.choice([0, 0, 0, 1, 17, 499999999, 500000000, 0xfffffffe, 0xffffffff])
+    return tx
+
+
+def gen_mutation(rng, n_in, n_out, allow_grow=True):
+    """one in-place change through public attributes / methods; returns (op token, new n_in, new n_out)"""
+    c = rng.randrange(14 if allow_grow else 10)
+    i, j = rng.randrange(n_in), (rng.randrange(n_out) if n_out else 0)
+    if c == 0:
+        return 'seq~%d~%d' % (i, gen_seq(rng)), n_in, n_out
+    if c == 1:
+        return 'seq~%d~%d' % (i, rng.choice([0xffffffff, 0xfffffffe, 0xfffffffd])), n_in, n_out
+    if c == 2:
+        prev = bytes([0x80 | rng.randrange(128)]) + bytes(rng.randrange(256) for _ in range(31))
+        return 'op~%d~%s~%d' % (i, prev.hex(), rng.choice([0, 1, 255, 256, 0xfffffffe, rng.randrange(1 << 32)])), n_in, n_out
+    if c == 3:
+        return 'lt~%d' % rng.choice([0, 1, 606060, 499999999, 500000000, 0xfffffffe, 0xffffffff]), n_in, n_out
+    if c == 4:
+        return 'ver~%d' % rng.choice([1, 2, 3, 0x7fffffff, 0x80000000, 0xffffffff]), n_in, n_out
+    if c == 5 and n_out:
+        return 'oval~%d~%d' % (j, rng.choice([0, 1, 546, 0xffffffff, 0x100000000, 2100000000000000, rng.randrange(1 << 50)])), n_in, n_out
+    if c == 6 and n_out:
+        return 'oscr~%d~%s' % (j, gen_out_script(rng).hex()), n_in, n_out
+    if c == 7:
+        return 'ival~%d~%d' % (i, rng.choice([1, 546, 0xffffffff, 0x100000000, 2100000000000000, rng.randrange(1, 1 << 50)])), n_in, n_out
+    if c == 8 and n_in > 1:
+        pm = list(range(n_in))
+        while pm == list(range(n_in)):
+            rng.shuffle(pm)
+        return 'perm~' + '.'.join(map(str, pm)), n_in, n_out
+    if c == 9:
+        return 'vint~%d' % rng.choice([1, 2, 3]), n_in, n_out
+    if c == 10 and n_in < 5:
+        x = gen_input(rng, rng.choice(SESS_KINDS), n_in)
+        if len(x['keys']) > 3:
+            x['keys'], x['m'] = x['keys'][:3], min(x['m'], 3)
+        x['seq'] = gen_seq(rng)
+        x['value'] = rng.randrange(1, 1 << 50)
+        return 'addin~' + in_tok(x), n_in + 1, n_out
+    if c == 11 and n_out < 5:
+        sc = gen_out_script(rng)
+        return 'addout~%d~%s' % (0 if sc[:1] == b'\x6a' else rng.randrange(1 << 45), sc.hex()), n_in, n_out + 1
+    if c == 12 and n_in < 5 and n_out < 5:
+        x = gen_input(rng, rng.choice(SESS_KINDS), 0)
+        if len(x['keys']) > 3:
+            x['keys'], x['m'] = x['keys'][:3], min(x['m'], 3)
+        x['seq'] = gen_seq(rng)
+        x['value'] = rng.randrange(1, 1 << 50)
+        sc = gen_out_script(rng)
+        pi, po = list(range(n_in + 1)), list(range(n_out + 1))
+        rng.shuffle(pi)
+        rng.shuffle(po)
+        return ('merge~%s~%d~%s~%s~%s' % (in_tok(x), 0 if sc[:1] == b'\x6a' else rng.randrange(1 << 45), sc.hex(),
+                                          '.'.join(map(str, pi)), '.'.join(map(str, po)))), n_in + 1, n_out + 1
+    return 'seq~%d~%d' % (i, gen_seq(rng)), n_in, n_out
+
+
+def gen_setter(rng, n_in):
+    """one call of a set_locktime_* method, parameters on and around every boundary the methods test"""
+    c = rng.randrange(4)
+    i = rng.randrange(n_in)
+    lt = rng.choice([0, 0, 0, 17, 606060])
+    if c == 0:
+        return 'slrb~%d~%d~%d' % (rng.choice(REL_BLOCKS + [0, 0xffffffff, 0x10000]), i, lt)
+    if c == 1:
+        return 'slrt~%d~%d~%d' % (rng.choice(REL_TIMES + [0, 0xffffffff, 512 * 0x10000]), i, lt)
+    if c == 2:
+        return 'slb~%d' % rng.choice([1, 606060, 499999999, 500000000, 0, 0xffffffff, 500000001])
+    return 'slt~%d' % rng.choice([500000001, 1700000000, 0xfffffffe, 0, 0xffffffff, 500000000])
+
+
+def observe(rng, core, policy, priv):
+    """interleave observations with the steps of a session.  every: digests and verify after each step;
+    end: only after the last step (so that whatever the object remembered comes from sign()/verify() alone);
+    signed: verify after each signing step, digests at the end; first: digests before anything else and at the end"""
+    ops = []
+    if policy in ('every', 'first'):
+        ops.append('dig')
+    for op in core:
+        ops.append(op)
+        k = op.split('~')[0]
+        if policy == 'every':
+            ops += ['dig', 'vfy'] if rng.random() < 0.7 else ['vfy', 'dig']
+        elif policy == 'signed' and k in SIGNING_OPS:
+            ops.append('vfy')
+    if policy != 'every':
+        ops += ['dig', 'vfy']
+    if rng.random() < 0.3:
+        ops.append('raw')
+    return ops
+
+
+def sess_case(kind, mode, tx, ops):
+    return Case('sess_' + kind, 'sess %s %s %s' % (mode, tx_tok(tx), ' '.join(ops)))
+
+
+def gen_sessions(rng, big):
+    cs_ = []
+    pol = lambda: rng.choice(['every', 'every', 'end', 'signed', 'first'])
+    # ---- A. every construction path x every class of sequence: build, look, sign, look (no change in between)
+    for mode in ('api', 'apik', 'apib', 'apikr', 'ctor', 'parse'):
+        for cls in SEQ_CLASSES:
+            for ver in ((0, 1, 2) if not big else (0, 1, 2, 3, 0xffffffff)):
+                tx = sess_tx(rng, sw=True, ver=ver, seq_cls=cls)
+                if rng.random() < 0.5:       # the class on one input only, the others final
+                    for x in tx['ins'][1:]:
+                        x['seq'] = 0xffffffff
+                core = ['signk'] if mode == 'api' else (['rsignk'] if mode == 'parse' else ['sign'])
+                cs_.append(sess_case('build_' + mode, mode, tx, observe(rng, core, rng.choice(['every', 'end', 'first']), mode in PRIV_MODES)))
+    # ---- B. signed, then a set_locktime_* method (re-signs itself), then perhaps another
+    for _ in range(600 if big else 60):
+        mode = rng.choice(['apik', 'apib', 'ctor', 'apikr'])
+        tx = sess_tx(rng)
+        core = ['sign'] + [gen_setter(rng, len(tx['ins'])) for _ in range(rng.choice([1, 1, 2, 3]))]
+        cs_.append(sess_case('setter', mode, tx, observe(rng, core, pol(), True)))
+    # ---- C. signed, attributes changed in place, sign_and_update()
+    for _ in range(800 if big else 70):
+        mode = rng.choice(['apik', 'apib', 'ctor', 'apikr'])
+        tx = sess_tx(rng)
+        n_in, n_out = len(tx['ins']), len(tx['outs'])
+        core = ['sign']
+        for _ in range(rng.choice([1, 1, 2, 3])):
+            m, n_in, n_out = gen_mutation(rng, n_in, n_out)
+            core.append(m)
+        core.append(rng.choice(['sau', 'sau', 'sau', 'rsign', 'rsignk']))
+        cs_.append(sess_case('mutate_resign', mode, tx, observe(rng, core, pol(), True)))
+    # ---- D. digests only (public keys): look, change, look — nothing is ever signed
+    for _ in range(400 if big else 40):
+        tx = sess_tx(rng)
+        n_in, n_out = len(tx['ins']), len(tx['outs'])
+        core = []
+        for _ in range(rng.choice([1, 2, 3, 4])):
+            m, n_in, n_out = gen_mutation(rng, n_in, n_out)
+            core.append(m)
+        cs_.append(sess_case('digest_only', 'api', tx, observe(rng, core, rng.choice(['every', 'first']), False)))
+    # ---- E. parsed from bytes, then modified and re-signed with keys supplied
+    for _ in range(400 if big else 40):
+        tx = sess_tx(rng)
+        n_in, n_out = len(tx['ins']), len(tx['outs'])
+        core = []
+        for _ in range(rng.choice([1, 1, 2])):
+            m, n_in, n_out = gen_mutation(rng, n_in, n_out, allow_grow=False)
+            core.append(m)
+        core.append('rsignk')
+        if rng.random() < 0.4:
+            core.append('sau')
+        cs_.append(sess_case('parse_modify', 'parse', tx, observe(rng, core, pol(), False)))
+    # ---- F. random walks over everything
+    for _ in range(1500 if big else 80):
+        mode = rng.choice(['apik', 'apib', 'ctor', 'apikr', 'api', 'parse'])
+        tx = sess_tx(rng, sw=(rng.random() < 0.9))
+        n_in, n_out = len(tx['ins']), len(tx['outs'])
+        priv = mode in PRIV_MODES
+        core = []
+        for _ in range(rng.randrange(2, 9)):
+            r = rng.random()
+            if r < 0.45:
+                m, n_in, n_out = gen_mutation(rng, n_in, n_out, allow_grow=(mode != 'parse'))
+                core.append(m)
+            elif r < 0.6 and priv:
+                core.append(gen_setter(rng, n_in))
+            elif r < 0.8:
+                core.append(rng.choice(['sign', 'sau', 'rsign', 'saui~%d' % rng.randrange(n_in)] if priv else ['signk', 'rsignk', 'sau']))
+            else:
+                core.append(rng.choice(['dig', 'vfy', 'raw']))
+        core.append('sau' if priv else 'rsignk')
+        cs_.append(sess_case('walk', mode, tx, observe(rng, core, pol(), priv)))
+    return cs_
+
+
 def pre_case(kind, mode, tok, sid, ht, wt):
     return Case(kind, 'pre %s %s %d %d %s' % (mode, tok, sid, ht, wt))
 
@@ -637,6 +856,8 @@ def gen_cases(rng, tier):
         kinds = [rng.choice([k for k in KINDS if k != 'multisig']) for _ in range(n)]
         tx = gen_tx(rng, kinds)
         cs_.append(Case('signed', 'signed ' + tx_tok(tx)))
+    # ---- the life cycle of one object: sessions
+    cs_ += gen_sessions(rng, big)
     return cs_
 
 
@@ -727,6 +948,54 @@ def der_sig(b):
     return int.from_bytes(b[4:4 + lr], 'big'), int.from_bytes(b[6 + lr:6 + lr + ls], 'big'), b[-1]
 
 
+def verify_input(x, ri, p, digest_of):
+    """consensus-style check of ONE input: x describes the output being spent (kind, keys, m), ri is the input as
+    read from the serialized transaction; digest_of(position, hash_type) supplies the digest.  None or the failure."""
+    kind, keys, m = x['kind'], x['keys'], x['m']
+    code = script_code(kind, keys, m)
+    try:
+        ss = pushes(ri['script'])
+        if kind == 'p2pkh':
+            sigs, ks = ss[:1], [ss[1]]
+            if len(ss) != 2 or ss[1] != keys[0] or ri['wit']:
+                return 'input %d: scriptSig is not <sig> <pubkey>' % p
+        elif kind == 'p2pk':
+            sigs, ks = ss, keys
+            if len(ss) != 1 or ri['wit']:
+                return 'input %d: scriptSig is not <sig>' % p
+        elif kind == 'p2sh_multisig':
+            if len(ss) < 2 or ss[0] != b'' or ss[-1] != code or ri['wit']:
+                return 'input %d: scriptSig is not OP_0 <sigs> <redeemScript>' % p
+            sigs, ks = ss[1:-1], keys
+        elif kind in ('p2wpkh', 'p2sh_p2wpkh'):
+            want = [] if kind == 'p2wpkh' else [b'\x00\x14' + h160(keys[0])]
+            if ss != want or len(ri['wit']) != 2 or ri['wit'][1] != keys[0]:
+                return 'input %d: scriptSig/witness not of the %s form' % (p, kind)
+            sigs, ks = ri['wit'][:1], keys
+        else:
+            want = [] if kind == 'p2wsh' else [b'\x00\x20' + hashlib.sha256(code).digest()]
+            w = ri['wit']
+            if ss != want or len(w) < 2 or w[0] != b'' or w[-1] != code:
+                return 'input %d: scriptSig/witness not of the %s form' % (p, kind)
+            sigs, ks = w[1:-1], keys
+        need = 1 if kind in SINGLE_KEY else m
+        if len(sigs) != need:
+            return 'input %d: %d signatures, %d required' % (p, len(sigs), need)
+        # OP_CHECKMULTISIG matching (and the one-key case): signatures in key order
+        ki = 0
+        for sb in sigs:
+            r_, s_, ht = der_sig(sb)
+            d = digest_of(p, ht)
+            while ki < len(ks) and not ecdsa_verify(d, r_, s_, ks[ki]):
+                ki += 1
+            if ki == len(ks):
+                return 'input %d (%s): a signature does not verify against the digest' % (p, kind)
+            ki += 1
+    except (ValueError, IndexError) as e:
+        return 'input %d: malformed scriptSig/witness/signature (%r)' % (p, e)
+    return None
+
+
 def verify_signed(tx, raw, digest_of):
     """consensus-style check of every input of the serialized transaction `raw` against the spent outputs described
     by `tx`; digest_of(position, hash_type) supplies the digest.  Returns None or a description of the failure."""
@@ -739,49 +1008,241 @@ def verify_signed(tx, raw, digest_of):
     for p, (x, ri) in enumerate(zip(tx['ins'], rt['ins'])):
         if (ri['prev'], ri['vout'], ri['seq']) != (x['prev'], x['vout'], x['seq']):
             return 'input %d: outpoint/sequence differ' % p
-        kind, keys, m = x['kind'], x['keys'], x['m']
-        code = script_code(kind, keys, m)
-        try:
-            ss = pushes(ri['script'])
-            if kind == 'p2pkh':
-                sigs, ks = ss[:1], [ss[1]]
-                if len(ss) != 2 or ss[1] != keys[0] or ri['wit']:
-                    return 'input %d: scriptSig is not <sig> <pubkey>' % p
-            elif kind == 'p2pk':
-                sigs, ks = ss, keys
-                if len(ss) != 1 or ri['wit']:
-                    return 'input %d: scriptSig is not <sig>' % p
-            elif kind == 'p2sh_multisig':
-                if len(ss) < 2 or ss[0] != b'' or ss[-1] != code or ri['wit']:
-                    return 'input %d: scriptSig is not OP_0 <sigs> <redeemScript>' % p
-                sigs, ks = ss[1:-1], keys
-            elif kind in ('p2wpkh', 'p2sh_p2wpkh'):
-                want = [] if kind == 'p2wpkh' else [b'\x00\x14' + h160(keys[0])]
-                if ss != want or len(ri['wit']) != 2 or ri['wit'][1] != keys[0]:
-                    return 'input %d: scriptSig/witness not of the %s form' % (p, kind)
-                sigs, ks = ri['wit'][:1], keys
-            else:
-                want = [] if kind == 'p2wsh' else [b'\x00\x20' + hashlib.sha256(code).digest()]
-                w = ri['wit']
-                if ss != want or len(w) < 2 or w[0] != b'' or w[-1] != code:
-                    return 'input %d: scriptSig/witness not of the %s form' % (p, kind)
-                sigs, ks = w[1:-1], keys
-            need = 1 if kind in SINGLE_KEY else m
-            if len(sigs) != need:
-                return 'input %d: %d signatures, %d required' % (p, len(sigs), need)
-            # OP_CHECKMULTISIG matching (and the one-key case): signatures in key order
-            ki = 0
-            for sb in sigs:
-                r_, s_, ht = der_sig(sb)
-                d = digest_of(p, ht)
-                while ki < len(ks) and not ecdsa_verify(d, r_, s_, ks[ki]):
-                    ki += 1
-                if ki == len(ks):
-                    return 'input %d (%s): a signature does not verify against the digest' % (p, kind)
-                ki += 1
-        except (ValueError, IndexError) as e:
-            return 'input %d: malformed scriptSig/witness/signature (%r)' % (p, e)
+        why = verify_input(x, ri, p, digest_of)
+        if why is not None:
+            return why
     return None
+
+
+# ============================================================================ sessions on one Transaction object
+# Request `sess <mode> <tx> <op> ...` (ops in harness/impl/c01_impl.py: session_op).  The oracle below never looks at
+# what the request asked the library to DO to the serialised fields: version, locktime, outpoints, sequences and
+# outputs are read from the bytes Transaction.raw() returned at that moment (own parser read_raw); only the description
+# of the outputs being spent (kind, keys, m, amount) — which no serialisation carries — follows the request.
+PRIV_MODES = ('apik', 'apib', 'apikr', 'ctor')
+SIGNING_OPS = ('sign', 'rsign', 'signk', 'rsignk', 'sau', 'saui', 'slrb', 'slrt', 'slb', 'slt', 'merge')
+
+
+def in_of_tok(s):
+    prev, vout, seq, idx, kind, value, m, keys = s.split(',')
+    return dict(prev=bytes.fromhex(prev), vout=int(vout), seq=int(seq), idx=int(idx), kind=kind, value=int(value), m=int(m),
+                keys=[bytes.fromhex(k) for k in keys.split('/')])
+
+
+def in_tok(x):
+    return '%s,%d,%d,%d,%s,%d,%d,%s' % (x['prev'].hex(), x['vout'], x['seq'], x['idx'], x['kind'], x['value'], x['m'],
+                                        '/'.join(k.hex() for k in x['keys']))
+
+
+def fields_str(rt):
+    """the serialised fields of a transaction read by read_raw, in the notation of the model driver"""
+    ins = ';'.join('%s,%d,%d' % (x['prev'].hex(), x['vout'], x['seq']) for x in rt['ins']) or '-'
+    outs = ';'.join('%d,%s' % (v, hx(sc)) for v, sc in rt['outs']) or '-'
+    return '%d/%d/%s/%s' % (rt['ver'], rt['lock'], ins, outs)
+
+
+def _tx_from_raw(rt, info, sw):
+    """transaction description for consensus_sighash: serialised fields from the bytes, spent outputs from `info`"""
+    return dict(ver=rt['ver'], lock=rt['lock'], outs=rt['outs'], sw=sw,
+                ins=[dict(prev=ri['prev'], vout=ri['vout'], seq=ri['seq'], kind=x['kind'], keys=x['keys'], m=x['m'],
+                          value=x['value']) for ri, x in zip(rt['ins'], info)])
+
+
+def session_walk(c, out):
+    """Replay the bookkeeping of a session next to the implementation's answers.
+    Yields (op, answer token, info (spent outputs by position), sigstate (by position: none/fresh/stale; a trailing
+    '+' marks an input that has been signed more than once))."""
+    t = c.req.split(' ')
+    mode, tx, ops = t[1], tx_of_tok(t[2]), t[3:]
+    info = [dict(kind=x['kind'], keys=x['keys'], m=x['m'], value=x['value']) for x in tx['ins']]
+    sig = ['fresh' if mode == 'parse' else 'none' for _ in info]
+    priv = mode in PRIV_MODES
+    ans = out.split(' ')
+    nsig = {}          # id of the info entry -> how often the library signed that input
+    for x in info:
+        x['uid'] = len(nsig)
+        nsig[x['uid']] = 1 if mode == 'parse' else 0
+    for op, a in zip(ops, ans):
+        k = op.split('~')
+        ok = a == 'ok'
+        before = list(zip([x['uid'] for x in info], sig))
+        if k[0] in ('sign', 'signk') and (priv or k[0] == 'signk'):
+            if ok:
+                sig = ['fresh' if x == 'none' else x for x in sig]
+        elif k[0] == 'rsign':
+            if ok and priv:
+                sig = ['fresh'] * len(sig)
+        elif k[0] == 'rsignk':
+            if ok:
+                sig = ['fresh'] * len(sig)
+        elif k[0] in ('sau', 'saui'):
+            # sign_and_update may change what raw() serialises (it copies version_int into version) and re-signs only
+            # the inputs it holds private keys for / the one input it was asked for
+            sig = ['stale' if x != 'none' else x for x in sig]
+            if ok and priv:
+                if k[0] == 'sau':
+                    sig = ['fresh'] * len(sig)
+                elif int(k[1]) < len(sig):
+                    sig[int(k[1])] = 'fresh'
+        elif k[0] in ('seq', 'op', 'lt', 'ver', 'vint', 'oval', 'oscr', 'addout', 'perm'):
+            sig = ['stale' if x != 'none' else x for x in sig]
+            if k[0] == 'perm' and ok:
+                pm = [int(v) for v in k[1].split('.')]
+                info = [info[j] for j in pm]
+                sig = [sig[j] for j in pm]
+        elif k[0] == 'ival':
+            i = int(k[1])
+            if i < len(info):
+                info[i] = dict(info[i], value=int(k[2]))
+                if sig[i] != 'none':
+                    sig[i] = 'stale'
+        elif k[0] == 'addin':
+            sig = ['stale' if x != 'none' else x for x in sig]
+            if ok:
+                x = in_of_tok(k[1])
+                info.append(dict(kind=x['kind'], keys=x['keys'], m=x['m'], value=x['value'], uid=len(nsig)))
+                nsig[len(nsig)] = 0
+                sig.append('none')
+        elif k[0] == 'merge':
+            # inputs and outputs of another transaction appended, both lists shuffled, sign_and_update()
+            sig = ['stale' if x != 'none' else x for x in sig]
+            x = in_of_tok(k[1])
+            pm = [int(v) for v in k[4].split('.')]
+            if a == 'ok' or not a.startswith('E:IndexError'):
+                info.append(dict(kind=x['kind'], keys=x['keys'], m=x['m'], value=x['value'], uid=len(nsig)))
+                nsig[len(nsig)] = 0
+                sig.append('none')
+                if sorted(pm) == list(range(len(info))):
+                    info = [info[j] for j in pm]
+                    sig = [sig[j] for j in pm]
+            if ok and priv:
+                sig = ['fresh'] * len(sig)
+        elif k[0] in ('slrb', 'slrt'):
+            sig = ['stale' if x != 'none' else x for x in sig]
+            if ok and priv and int(k[2]) < len(sig):
+                sig[int(k[2])] = 'fresh'
+        elif k[0] in ('slb', 'slt'):
+            sig = (['fresh'] * len(sig)) if (ok and priv) else ['stale' if x != 'none' else x for x in sig]
+        was = dict(before)
+        for x, st in zip(info, sig):
+            # an input counts as signed (again) by this step when the step left it fresh and it was not fresh before,
+            # or when the step re-signs whatever it finds (replace_signatures)
+            if st == 'fresh' and (was.get(x['uid']) != 'fresh' or k[0] in ('rsign', 'rsignk', 'sau', 'saui', 'slrb', 'slrt', 'slb', 'slt', 'merge')):
+                nsig[x['uid']] += 1
+        yield op, a, [dict(x) for x in info], [st + ('+' if nsig[x['uid']] > 1 else '') for x, st in zip(info, sig)]
+
+
+def session_check(c, out, exempt_p2pk_resigned=False):
+    """exempt_p2pk_resigned: leave P2PK inputs that were signed more than once out of the signature checks (used
+    only to decide whether a failure belongs to the recorded class p2pk_resign_stale_scriptsig and to nothing else)"""
+    t = c.req.split(' ')
+    sw = tx_of_tok(t[2])['sw']
+    n_ops = len(t) - 3
+    if len(out.split(' ')) != n_ops:
+        return 'session answered %d tokens for %d steps' % (len(out.split(' ')), n_ops)
+    step = 0
+    for op, a, info, sig in session_walk(c, out):
+        step += 1
+        where = 'step %d (%s)' % (step, op.split('~')[0])
+        if a == 'BADOP':
+            return 'unexpected answer BADOP at ' + where
+        if a[:2] not in ('D=', 'V=') or a in ('D=ERR', 'V=ERR'):
+            continue
+        body = a[2:].split('#')
+        try:
+            raw = bytes.fromhex(body[0])
+            rt = read_raw(raw)
+        except Exception as e:
+            return '%s: Transaction.raw() is not a readable transaction (%r)' % (where, e)
+        if len(rt['ins']) != len(info):
+            return '%s: Transaction.raw() has %d inputs, %d expected' % (where, len(rt['ins']), len(info))
+        txr = _tx_from_raw(rt, info, sw)
+        if a[:2] == 'D=':
+            if body[1] == '-':
+                continue
+            for ent in body[1].split(','):
+                e = ent.split('.')
+                pos, ht = int(e[0]), int(e[1])
+                if e[2] == 'ERR':
+                    continue
+                pre = b'' if e[2] == '-' else bytes.fromhex(e[2])
+                if dsha(pre).hex() != e[3]:
+                    return '%s: signature_hash(%d, %#x) is not the double SHA256 of what Transaction.signature returns' % (where, pos, ht)
+                if not (0 < info[pos]['value'] < (1 << 64)):
+                    continue
+                want, dig = consensus_sighash(txr, pos, ht)
+                if want is None or pre != want:
+                    return ('%s: Transaction.signature(%d, %#x) of the live object is not the consensus preimage of the '
+                            'transaction its raw() serialises at that moment (version %d, locktime %d, sequences %s): '
+                            'library digest %s, consensus digest %s'
+                            % (where, pos, ht, rt['ver'], rt['lock'], '/'.join('%08x' % x['seq'] for x in rt['ins']),
+                               e[3][:16], dig.hex()[:16]))
+        else:
+            lib_ok = body[1] == '1'
+            bad = {}
+            for pos, (x, ri) in enumerate(zip(info, rt['ins'])):
+                why = verify_input(x, ri, pos, lambda q, ht: consensus_sighash(txr, q, ht)[1])
+                if why is not None:
+                    bad[pos] = why
+            if exempt_p2pk_resigned:
+                for pos, st in enumerate(sig):
+                    if st.endswith('+') and info[pos]['kind'] == 'p2pk':
+                        bad.pop(pos, None)
+                        if not bad:
+                            lib_ok = True      # nothing left for the two verdicts to disagree about
+            for pos, st in enumerate(sig):
+                if st.rstrip('+') == 'fresh' and pos in bad:
+                    return ('%s: input %d was (re-)signed by the library after the last change, but the signature embedded in '
+                            'raw() is rejected by the independent verifier: %s (library verify() = %s; version %d, locktime %d, '
+                            'sequences %s)' % (where, pos, bad[pos], body[1], rt['ver'], rt['lock'],
+                                               '/'.join('%08x' % x['seq'] for x in rt['ins'])))
+            if lib_ok and bad:
+                return ('%s: Transaction.verify() is True but the independent verifier rejects: %s'
+                        % (where, bad[min(bad)]))
+            if not lib_ok and not bad:
+                return '%s: Transaction.verify() is False for a transaction whose signatures are valid for consensus' % where
+    return None
+
+
+def session_same(c, io, mo):
+    """implementation answers against the life-cycle model, step by step; comparison stops at the first step the
+    implementation refused (the model does not predict exceptions)"""
+    if io.startswith('ERR'):
+        return mo.startswith('ERR')
+    if mo.startswith('ERR') or mo.startswith('CRASH') or mo == 'BADREQ':
+        return False
+    ia, ma = io.split(' '), mo.split(' ')
+    if len(ia) != len(ma):
+        return False
+    for a, m in zip(ia, ma):
+        if a.startswith('E:'):
+            return True
+        if a[:2] in ('D=', 'R=', 'V='):
+            body = a[2:].split('#')
+            if body[0] == 'ERR':
+                return False
+            try:
+                f = fields_str(read_raw(bytes.fromhex(body[0])))
+            except Exception:
+                return False
+            if a[:2] == 'V=':
+                if m != 'V':
+                    return False
+                continue
+            mb = m[2:].split('#')
+            if m[:2] != a[:2] or mb[0] != f:
+                return False
+            if a[:2] == 'R=':
+                if mb[1:] != body[1:]:
+                    return False
+            else:
+                ie = [] if body[1] == '-' else ['.'.join(x.split('.')[:3]) for x in body[1].split(',')]
+                me = [] if mb[1] == '-' else mb[1].split(',')
+                if ie != me:
+                    return False
+        elif a != m:
+            return False
+    return True
 
 
 def _in_statement(tx, sid, ht, wt):
@@ -802,6 +1263,10 @@ def prop_check(c, out):
     if out.startswith('CRASH') or out == 'BADREQ':
         return 'unexpected answer %r' % out[:120]
     t = c.req.split(' ')
+    if t[0] == 'sess':
+        if out.startswith('ERR'):
+            return None
+        return session_check(c, out)
     if t[0] == 'pre':
         mode, tok, sid, ht, wt = t[1], t[2], int(t[3]), int(t[4]), t[5]
         tx = tx_of_tok(tok)
@@ -835,6 +1300,8 @@ def prop_check(c, out):
 
 def same(c, io, mo):
     t = c.req.split(' ')
+    if t[0] == 'sess':
+        return session_same(c, io, mo)
     if t[0] == 'signed':
         if io.startswith('ERR'):
             return 'ERR' in mo
@@ -871,9 +1338,36 @@ def _legacy_non_all(c):
     return bool(ht & 0x80) or (ht & 0x1f) in (2, 3)
 
 
+_KNOWN_IDS = []
+
+
+def _recorded(cid):
+    """is the finding recorded as known (known_findings.json / VERIF_EXTRA_KNOWN)?  A class whose repair is proposed as
+    a fix: commit must stop excusing anything once the repair is in and the entry is gone."""
+    if not _KNOWN_IDS:
+        from core import load_known
+        _KNOWN_IDS.append({e.get('id') for e in load_known(PROP) if e.get('status') == 'known'})
+    return cid in _KNOWN_IDS[0]
+
+
+def _p2pk_resign(c, io, mo):
+    """session with a P2PK input that the library signs more than once, and the ONLY thing wrong with the answers is
+    what that class explains (the scriptSig of such an input keeps the first signature)"""
+    t = c.req.split(' ')
+    if t[0] != 'sess' or not _recorded('p2pk_resign_stale_scriptsig'):
+        return False
+    if ',p2pk,' not in c.req:
+        return False
+    if sum(1 for op in t[3:] if op.split('~')[0] in SIGNING_OPS) + (1 if t[1] == 'parse' else 0) < 2:
+        return False
+    return session_check(c, io, exempt_p2pk_resigned=True) is None
+
+
 KNOWN_CLASSES = {
     # index_n != list position was repaired (fixes/C01-2): no class for it, the permuted-index stream must pass
     'legacy_non_all_hashtype': lambda c, io, mo: _legacy_non_all(c),
+    # repaired by fixes/C01-3 (proposed); the predicate is live only while the finding is recorded as known instead
+    'p2pk_resign_stale_scriptsig': _p2pk_resign,
 }
 
 
